@@ -75,6 +75,7 @@ def gen_case(rnd, path):
     elif path == "insert-comment":
         scn["vi"] = vi = False          # M-# is an emacs binding
         end = [b"\x1b#"]
+    scn["preamble"] = rnd.choice([0, 0, 3, 7])   # rows already used above the prompt
     return {"path": path, "vi": vi, "width": width, "prompt": prompt, "text": text, "shape": shape, "scn": scn, "keys": keys, "end": end,
             "moves": moves}
 
